@@ -67,6 +67,30 @@ mod verif_driver_ops {
                 witness("c14_ops/compute_min_utxo#arithmetic-overflow", "compute_min_utxo", format!("coins_per_byte={cpb}"), format!("panic:{pn}"), "Ok or Err");
             }
         }
+        // with a body remembered from an earlier compilation (two outputs): an index that does not exist is an error
+        let addr = || {
+            use pallas::ledger::addresses::{Network, ShelleyAddress, ShelleyDelegationPart, ShelleyPaymentPart};
+            let a: pallas::ledger::addresses::Address = ShelleyAddress::new(Network::Testnet, ShelleyPaymentPart::Key(pallas::ledger::primitives::Hash::<28>::from([7u8; 28].as_slice())), ShelleyDelegationPart::Null).into();
+            tir::Expression::Address(a.to_vec())
+        };
+        let out = |lovelace: i128| tir::Output { address: addr(), datum: tir::Expression::None, optional: false,
+            amount: tir::Expression::Assets(vec![tir::AssetExpr { policy: tir::Expression::None, asset_name: tir::Expression::None, amount: tir::Expression::Number(lovelace) }]) };
+        let tx = tir::Tx { fees: tir::Expression::Number(0), references: vec![], inputs: vec![], outputs: vec![out(2_000_000), out(3_000_000)], validity: None,
+            mints: vec![], burns: vec![], adhoc: vec![], collateral: vec![], signers: None, metadata: vec![] };
+        match crate::compile::entry_point(&tx, &pp(44, 155381)) {
+            Ok(compiled) => {
+                let body = Some(compiled.transaction_body);
+                for idx in [0i128, 1, 2, 3, -1, p(32), p(64), i128::MAX, i128::MIN] {
+                    n += 1;
+                    match quiet(|| compute_min_utxo(tir::Expression::Number(idx), &body, 4310)) {
+                        Err(pn) => witness("c14_ops/compute_min_utxo#reachable-panic", "compute_min_utxo", format!("index={idx} body with 2 outputs"), format!("panic:{pn}"), "Ok or Err"),
+                        Ok(Ok(_)) => if !(0..2).contains(&idx) { witness("c14_ops/compute_min_utxo#postcondition", "compute_min_utxo", format!("index={idx} body with 2 outputs"), "Ok".into(), "an index that does not exist is an error") },
+                        Ok(Err(_)) => if (0..2).contains(&idx) { witness("c14_ops/compute_min_utxo#postcondition", "compute_min_utxo", format!("index={idx} body with 2 outputs"), "Err".into(), "an existing output index is accepted") },
+                    }
+                }
+            }
+            Err(e) => println!("VERIF-NOTE could not build a body for compute_min_utxo: {e}"),
+        }
         println!("VERIF-CASES fn=compute_min_utxo n={n}");
     }
 }
